@@ -5,6 +5,7 @@ package l2
 import (
 	"errors"
 	"fmt"
+	"reflect"
 	"sort"
 	"strings"
 
@@ -80,10 +81,12 @@ func (c *checker) add(prop, class, f string, a ...any) {
 	c.out = append(c.out, Violation{prop, class, fmt.Sprintf(f, a...)})
 }
 
+// safeEq compares two dynamic values; values of uncomparable types (a slice
+// or map panic value, say) are compared structurally.
 func safeEq(a, b any) (eq bool) {
 	defer func() {
 		if recover() != nil {
-			eq = false
+			eq = reflect.DeepEqual(a, b)
 		}
 	}()
 	return a == b
